@@ -28,7 +28,7 @@ REQUIRED_CLASSES = ['material-number-fraction', 'material-mass-fraction', 'subst
                     'natural', 'most-abundant', 'single-component', 'components>=5', 'proportion-span>=1e4',
                     'scaling-k<1', 'scaling-k>1', 'duality-number-to-mass', 'duality-mass-to-number',
                     'repeated-substance-in-string', 'composite-from-addition', 'composite-from-add-method',
-                    'composite-from-number-times-material', 'composite-from-material-plus-substances', 'component-substance-of-a-material', 'substance-with-own-proportion', 'shared-component-accumulated', 'operands-rechecked-after-sum']
+                    'composite-from-number-times-material', 'string-amount-in-exponent-notation-without-decimal-point', 'composite-from-material-plus-substances', 'component-substance-of-a-material', 'substance-with-own-proportion', 'shared-component-accumulated', 'operands-rechecked-after-sum']
 REQUIRED_MONITORS = ['mode_twin_tables', 'fraction_rows_checked', 'sum_rows_checked', 'scaling_twins_compared', 'duality_twins_compared',
                      'table_hygiene_checks']
 ASSUMPTIONS = ['component masses m_i are taken from data_components() (their correctness is C10)',
@@ -91,7 +91,11 @@ def amount_text(rng):
         if float(t) <= 0:
             t = '0.000001'
         return t
-    return '%.3e' % v
+    if r < 0.88:
+        return '%.3e' % v
+    # exponent notation WITHOUT a decimal point in the mantissa (what repr() prints for 2e-05), also with a capital E
+    m, ex = rng.randint(1, 9), rng.choice([-5, -4, -3, -2, 2, 3])
+    return rng.choice(['%de%+03d', '%de%d', '%dE%+03d', '%d.e%d']) % (m, ex)
 
 
 def cases(rng, tier, shard, nshards, ctx):
@@ -301,6 +305,9 @@ def _run_case(case, ctx, classes, mon, devs):
     given = {}
     for t, (f, a) in zip(texts, case['comps']):
         given[t] = given.get(t, 0.0) + float(a)
+    import re as _re
+    if case['form'] == 'string' and any(_re.match(r'^\d+\.?[eE]', str(a)) for _, a in case['comps']):
+        classes.add('string-amount-in-exponent-notation-without-decimal-point')
     if len(given) < len(texts):
         classes.add('repeated-substance-in-string')
     if len(given) == 1:
